@@ -109,6 +109,34 @@ example : subtractSignature (addSignatures (partialSigs 7 [(3, 11), (5, 13)])) (
 example : sigVerifies 7 (subtractSignature (addSignatures (partialSigs 7 [(3, 11), (5, 13), (9, 2)])) (partialSig 7 3 11))
     (13 + 2) (5 + 9) = true := by decide
 
+/-- **exactly when `ExtKeychain::sign_with_blinding` panics**: iff the blinding factor is the
+all-zero one; it is an `Err` iff the 32 bytes are no scalar (≥ n), and signs otherwise — the panic
+is an explicit outcome of the model, compared on the real code (`signb` lines).  (An observation
+about the code, not a violation of C20: the builder never signs with the zero factor.) -/
+theorem sign_with_blinding_outcomes (b : Nat) :
+    (ksignBlinding b = .panic ↔ b = 0) ∧ (ksignBlinding b = .err ↔ N ≤ b) ∧
+    (ksignBlinding b = .ok () ↔ 0 < b ∧ b < N) := by
+  unfold ksignBlinding bfSecretKey
+  by_cases h0 : b = 0
+  · subst h0; simp [N]
+  · by_cases h1 : b < N
+    · simp [h0, h1]; omega
+    · simp [h0, h1]; omega
+
+/-- `aggsig::sign_with_blinding` never panics: `Err` iff the bytes are no scalar, the zero factor signs -/
+theorem aggsig_sign_with_blinding_outcomes (b : Nat) :
+    aggsigSignBlinding b ≠ .panic ∧ (aggsigSignBlinding b = .err ↔ N ≤ b) := by
+  unfold aggsigSignBlinding bfSecretKey
+  by_cases h0 : b = 0
+  · subst h0; simp [N]
+  · by_cases h1 : b < N
+    · simp [h0, h1]
+    · simp [h0, h1]; omega
+
+example : ksignBlinding 0 = .panic ∧ ksignBlinding 1 = .ok () ∧ ksignBlinding N = .err := by
+  refine ⟨(sign_with_blinding_outcomes 0).1.2 rfl, (sign_with_blinding_outcomes 1).2.2.2 (by decide),
+    (sign_with_blinding_outcomes N).2.1.2 (Nat.le_refl _)⟩
+
 /-- **masking the master key twice with the same mask restores it** (any byte strings of equal
 length; bytes below 256 not even needed) -/
 theorem mask_twice_restores : ∀ (master mask : List Nat), master.length = mask.length →
